@@ -290,17 +290,17 @@ Section MapWrapperStatements.
      the association-list specification *)
   Theorem C11_unordered_map_refines : forall ops : list (umap_op K V),
     UInv hash (umrun ops) /\ Permutation (u_to_list (umrun ops)) (umspec ops).
-  Proof. exact (u_refines keq heq hash keq_spec heq_spec). Qed.
+  Proof. exact (u_refines keq heq klt hash keq_spec heq_spec). Qed.
 
   Theorem C11_unordered_map_ret_refines : forall (ops : list (umap_op K V)) o,
     snd (u_step keq heq hash (umrun ops) o) = snd (us_step keq (umspec ops) o).
-  Proof. exact (u_ret_refines keq heq hash keq_spec heq_spec). Qed.
+  Proof. exact (u_ret_refines keq heq klt hash keq_spec heq_spec). Qed.
 
   Theorem C11_unordered_map_get_refines : forall (ops : list (umap_op K V)) k,
     u_get keq heq hash (umrun ops) k = Spec.get keq (umspec ops) k /\
     u_contains_key keq heq hash (umrun ops) k = Spec.contains keq (umspec ops) k /\
     u_len (umrun ops) = length (umspec ops).
-  Proof. exact (u_get_refines keq heq hash keq_spec heq_spec). Qed.
+  Proof. exact (u_get_refines keq heq klt hash keq_spec heq_spec). Qed.
 
   (* lookups do not depend on the bucket order: two tables with the same bag of entries answer alike *)
   Theorem C11_unordered_get_order_independent : forall (t1 t2 : @utable K V H) k, UInv hash t1 -> UInv hash t2 ->
